@@ -105,6 +105,7 @@ class Outcome:
     havoc: list = field(default_factory=list)  # extra handle names whose snapshot is simply refreshed
     drop: list = field(default_factory=list)  # handles removed from the world
     own_kind: bool = True  # counts as "an op of the property's own kind"
+    sig: object = None  # extra abstract-state component for ops whose subject is not a pooled handle
 
     def fail(self, prop, inv, msg):
         self.fails.append((prop, inv, msg))
@@ -285,7 +286,7 @@ class Session:
             self.ngrams2.add(tuple(self._last_kinds[-2:]))
         if len(self._last_kinds) >= 3:
             self.ngrams3.add(tuple(self._last_kinds[-3:]))
-        self.sigs.add(self.signature(kind))
+        self.sigs.add(self.signature(kind, out.sig))
         self.events.append(
             (self.step, kind, digest(out.note), tuple(sorted((n, digest(s)) for n, s in w.snaps.items())),
              tuple(v.klass() for v in vs))
@@ -294,7 +295,7 @@ class Session:
         return vs
 
     # ---- abstract world signature (DESIGN §4.10)
-    def signature(self, last_kind: str):
+    def signature(self, last_kind: str, extra=None):
         w = self.world
         parts = []
         for h in w.h.values():
@@ -314,7 +315,7 @@ class Session:
                 parts.append((h.kind[0:2], h.game, min(len(w.alias_class(h.name)), 3), h.name in w.stale))
             else:
                 parts.append((h.kind[0:2], h.game))
-        return digest((tuple(sorted(parts)), last_kind))
+        return digest((tuple(sorted(parts)), last_kind, extra))
 
     def trace_digest(self) -> str:
         h = hashlib.sha256()
